@@ -124,6 +124,12 @@ class WcBase(HookMixin, WorkChain):
                 import types
 
                 value = types.MappingProxyType(dict(value['__mapping__']))  # a result that is a mapping, but not a dict
+            elif isinstance(value, dict) and '__wait__' in value:
+                # the step asks for an external reply with a plain Wait command (nothing to await: resume(value) wakes the
+                # chain up); the continuation is a method of the chain
+                import plumpy
+
+                value = plumpy.Wait(self.pv_receive, 'waiting for a reply')
             elif isinstance(value, dict) and '__raise__' in value:
                 from .programs import ProgError
 
@@ -135,6 +141,12 @@ class WcBase(HookMixin, WorkChain):
             return value
         finally:
             w.tr(pid, {'k': 'exit', 'step': name, 'outcome': outcome})
+
+    def pv_receive(self, *args):
+        self.ctx['reply'] = list(args)
+        self.out('reply', list(args))
+        self._run_step('receive')
+        return 'received'
 
     def _run_pred(self, name):
         k = self._count(name)
